@@ -64,10 +64,6 @@ impl Trace {
         }
     }
 
-    pub fn n_budget_calls(&self) -> u64 {
-        self.budgets.iter().map(|(_, n)| *n as u64).sum()
-    }
-
     fn push_budget(&mut self, k: u32) {
         if let Some(last) = self.budgets.last_mut()
             && last.0 == k
@@ -264,6 +260,7 @@ pub struct RunResult {
     pub recent: Vec<String>,
     pub n_threads: u32,
     /// per thread ordinal: statistics at the end of the run (before the drop)
+    #[allow(dead_code)]
     pub thread_stats: Vec<ThreadStat>,
     /// set when the completeness probe ran: live objects per thread after two quiescent full GCs
     pub live_after_full_gc: Option<Vec<usize>>,
@@ -306,7 +303,6 @@ struct Recent {
 #[derive(Default, Clone)]
 struct ThreadModel {
     ordinal: u32,
-    is_main: bool,
     parked: bool,
     finished: bool,
     failed: bool,
@@ -552,7 +548,7 @@ impl Sim {
         });
     }
 
-    fn ordinal(&mut self, raw: u64, is_main: bool) -> u32 {
+    fn ordinal(&mut self, raw: u64, _is_main: bool) -> u32 {
         if let Some(t) = self.threads.get(&raw) {
             return t.ordinal;
         }
@@ -562,7 +558,6 @@ impl Sim {
             raw,
             ThreadModel {
                 ordinal,
-                is_main,
                 last_step_seq: self.step_seq,
                 ..Default::default()
             },
@@ -1393,6 +1388,7 @@ pub fn run_once(make_rt: &dyn Fn() -> Runtime, src: Source, opts: &RunOptions) -
     verif::install(Box::new(Ctl(sim.clone())));
 
     let mut rt = Some(make_rt());
+    #[allow(unused_assignments)]
     let mut outcome: Option<Outcome> = None;
     let mut calls = 0u64;
     let mut idle_turns = 0u64;
